@@ -1,8 +1,8 @@
 CHECKS = [
     entry("C08", "samplers",
           technique="property-based testing (rapid): differential against an independent three-valued interpreter of rules.md / rules_conditions.md; exhaustive one-span operator x datatype x value grid in the replay tier",
-          quick=dict(checks=10000, budget_s=45),
+          quick=dict(checks=8000, budget_s=45),
           thorough=dict(checks=40000, shards=16, budget_s=300),
-          level_text="Generated rules files (validated like refinery validates them) and typed traces; the rule RulesBasedSampler applies, its rate and its keep decision are compared with an interpreter written from the documents; disagreements are attributed to single conditions and signed (operator, datatype, presence). The finite grid 15 operators x 5 datatypes x 22 Value forms x 2 scopes x 19 span values on one-span traces is enumerated exhaustively on every run (exhaustive for that sub-domain only). Exploration otherwise: does not prove absence.",
-          level_note="Corners the documents leave open or contradict evaluate to don't-care and are counted, not asserted (listed in the evidence assumptions). CheckNestedFields and meta.* fields are out of scope."),
+          level_text="Generated rules files (validated like refinery validates them) and typed traces; the rule RulesBasedSampler applies, its rate and its keep decision are compared with an interpreter written from the documents; disagreements are attributed to single conditions and signed (operator, datatype, presence). The finite grid 15 operators x 5 datatypes x 22 Value forms x 2 scopes x 19 span values on one-span traces is enumerated exhaustively on every run (exhaustive for that sub-domain only). Exploration otherwise: does not prove absence. Sub-generators aim at Fields lists mixing span-level and root. names, numeric thresholds (fractional Value vs integer span values, untyped), and ?.NUM_DESCENDANTS on traces containing span events / links; multi-span traces are also evaluated once while being assembled (evaluate, AddSpan, evaluate).",
+          level_note="Corners the documents leave open or contradict evaluate to don't-care and are counted, not asserted (listed in the evidence assumptions). CheckNestedFields and meta.* fields are out of scope. Untyped integer-vs-fractional-float comparisons are asserted as numeric comparisons (7 < 7.5)."),
 ]
